@@ -166,6 +166,40 @@ def unfiles(s):
     return out
 
 
+def new_ids(pre_ids, jobs):
+    """ids of the jobs created by this run -> 'new:<target name>' (the numbers depend on the order of submission,
+    which the properties do not fix)"""
+    return {j["id"]: "new:" + j["name"] for j in jobs if j["id"] not in pre_ids}
+
+
+def canon_kv(kv, cid):
+    return {k: cid.get(v, v) for k, v in kv.items()}
+
+
+def canon_jobs(jobs, cid):
+    return sorted(({"id": cid.get(j["id"], j["id"]), "st": j["st"], "deps": sorted(cid.get(d, d) for d in j["deps"]), "name": j["name"]}
+                   for j in jobs), key=lambda j: j["id"])
+
+
+def canon_args(args, cid, all_ids):
+    """per submitted target: the argument templates with job ids replaced by '#', plus the sorted canonical ids"""
+    out = []
+    for name, argv in args:
+        ids, tmpl = [], []
+        for a in argv:
+            parts = re.split(r"(\d+)", a)
+            t = ""
+            for chunk in parts:
+                if chunk in all_ids:
+                    ids.append(cid.get(chunk, chunk))
+                    t += "#"
+                else:
+                    t += chunk
+            tmpl.append(t)
+        out.append((name, tmpl, sorted(ids)))
+    return sorted(out)
+
+
 def unjobs(s):
     out = []
     for e in (s.split(";") if s else []):
@@ -565,7 +599,7 @@ def compare(p, mline):
             bad.append(("C05", "gwf status issued scheduler commands %r" % sorted(set(p["calls"]) - QUERY_CMDS)))
     elif kind == "dry":
         exp = [common.unhx(x) for x in m.get("would", "").split(",") if x]
-        if p["would"] != exp:
+        if sorted(p["would"]) != sorted(exp):       # which targets, not in which order among independent ones
             bad.append(("C05", "dry-run announces %r, model plans %r (patterns %r)" % (p["would"], exp, p["patterns"])))
         if not p["pure"]:
             bad.append(("C05", "gwf run --dry-run changed the project state"))
@@ -575,7 +609,11 @@ def compare(p, mline):
         exp_subs = [e.split(":")[0] for e in m.get("subs", "").split(";") if e]
         exp_names = [common.unhx(x) for x in exp_subs]
         got_names = [s["name"] for s in p["subs"]]
-        if got_names != exp_names:
+        # the property fixes WHICH targets are submitted and that prerequisites come first, not the order among
+        # independent targets: compare as multisets (a refused submission truncates the run, so there the accepted
+        # prefix is compared as it is)
+        same_plan = (got_names == exp_names) if p.get("rejected") else (sorted(got_names) == sorted(exp_names))
+        if not same_plan:
             bad.append(("C02", "run submitted %r, model plans %r (patterns %r)" % (got_names, exp_names, p["patterns"])))
             live = {j["id"] for j in p.get("pre_jobs", []) if j["st"] in ("pending", "running")}
             dup = sorted(n for n in got_names if n not in exp_names and p.get("pre_tracked", {}).get(n) in live)
@@ -584,11 +622,13 @@ def compare(p, mline):
         # when the PLAN differs (C02's business) the tracked ids, the cluster's job list and the recorded
         # hashes necessarily differ too: that is a consequence, not a second defect, and is not attributed
         # to C07 / C18 (their own defects show up in steps whose plan agrees)
-        same_plan = got_names == exp_names
-        if same_plan and p["tracked"] != unkv(m.get("tracked", "")):
+        pre_ids = {j["id"] for j in p.get("pre_jobs", [])}
+        mjobs = unjobs(m.get("jobs", ""))
+        ci, cm = new_ids(pre_ids, p["jobs"]), new_ids(pre_ids, mjobs)
+        if same_plan and canon_kv(p["tracked"], ci) != canon_kv(unkv(m.get("tracked", "")), cm):
             bad.append(("C07", "tracked job ids after run %r, model %r" % (p["tracked"], unkv(m.get("tracked", "")))))
-        if same_plan and p["jobs"] != unjobs(m.get("jobs", "")):
-            bad.append(("C07", "cluster jobs/prerequisites after run %r, model %r" % (p["jobs"], unjobs(m.get("jobs", "")))))
+        if same_plan and canon_jobs(p["jobs"], ci) != canon_jobs(mjobs, cm):
+            bad.append(("C07", "cluster jobs/prerequisites after run %r, model %r" % (p["jobs"], mjobs)))
         if same_plan and p["hashes"] != unkv(m.get("hashes", "")):
             bad.append(("C18", "spec hashes after run %r, model %r" % (p["hashes"], unkv(m.get("hashes", "")))))
         if not p["files_same"]:
@@ -605,7 +645,9 @@ def compare(p, mline):
             else:
                 argv = [a for a in sub["argv"] if a not in ("--parsable", "-terse")]
                 got_args.append((sub["name"], argv))
-        if got_args != exp_args and got_names == exp_names:
+        all_i = {j["id"] for j in p["jobs"]} | pre_ids
+        all_m = {j["id"] for j in mjobs} | pre_ids
+        if same_plan and canon_args(got_args, ci, all_i) != canon_args(exp_args, cm, all_m):
             bad.append(("C07", "prerequisite arguments handed to the scheduler %r, model %r" % (got_args, exp_args)))
     elif kind == "touch":
         mfiles = unfiles(m.get("files", ""))
